@@ -16,7 +16,7 @@ LEVEL = "exploration"
 SHARDS = {"quick": 4, "thorough": 16}
 THOROUGH_DEPTH = 20      # thorough tier = this many times the base thorough budget (VERIF_DEPTH overrides)
 FORMS = ["fresh", "view", "aliased", "float32-free"]
-REGIONS = {"form:fresh": 300, "form:view": 300, "form:aliased": 300, "form:objects": 300, "form:readonly": 300, "form:nan-marked": 300}
+REGIONS = {"form:fresh": 300, "form:view": 300, "form:aliased": 300, "form:objects": 300, "form:readonly": 300, "form:nan-marked": 300, "form:fortran": 300}
 THOROUGH_QUOTA_MULT = 4
 
 
@@ -510,7 +510,7 @@ def generate(rng, tier, shard, nshards):
     k = 0
     for rep in range(reps):
         for idx in range(nspec):
-            for form in ("fresh", "view", "aliased", "objects", "readonly", "nan-marked"):
+            for form in ("fresh", "view", "aliased", "objects", "readonly", "nan-marked", "fortran"):
                 k += 1
                 if k % nshards != shard:
                     continue
@@ -584,6 +584,15 @@ def make_forms(args, form, rng):
             any_ = any_ or o_ is not None
             out.append(o_ if o_ is not None else (a.copy() if isinstance(a, np.ndarray) else a))
         return out if any_ else None
+    if form == "fortran":      # recordings held column-major (a channel-major log transposed, np.asfortranarray, pandas .to_numpy()): the same values, another memory order
+        out, any_ = [], False
+        for a in args:
+            if isinstance(a, np.ndarray) and a.ndim >= 2 and a.shape[0] >= 2:
+                out.append(np.asfortranarray(a.copy()))
+                any_ = True
+            else:
+                out.append(a.copy() if isinstance(a, np.ndarray) else a)
+        return out if any_ else None
     if form == "nan-marked":   # a recording with missing samples marked as NaN (whole rows or single entries): whatever the function makes of them, the markers are the caller's
         r2_ = np.random.Generator(np.random.PCG64(int(sum(float(np.nansum(np.abs(a))) for a in args if isinstance(a, np.ndarray)) * 1e6) % (2 ** 63)))
         out, any_ = [], False
@@ -638,7 +647,7 @@ def check(case, ctx):
     base_args = fac(A(rng))
     args = make_forms(base_args, case.p["form"], rng)
     if args is None:
-        ctx.note("no two parameters of equal shape: aliased form not applicable" if case.p["form"] == "aliased" else "no multi-row float array argument: nan-marked form not applicable" if case.p["form"] == "nan-marked" else "no quaternion / rotation-matrix shaped argument: objects form not applicable")
+        ctx.note("no two parameters of equal shape: aliased form not applicable" if case.p["form"] == "aliased" else "no multi-row float array argument: nan-marked form not applicable" if case.p["form"] == "nan-marked" else "no multi-row array argument: fortran form not applicable" if case.p["form"] == "fortran" else "no quaternion / rotation-matrix shaped argument: objects form not applicable")
         return
     if case.p["form"] == "objects":
         pristine = [a.copy() if isinstance(a, np.ndarray) else a for a in base_args]
